@@ -239,7 +239,9 @@ func (g *brokerGen) badConnect() {
 		case 6:
 			cid, clean = "", 0
 		case 7:
-			cid = pick(r, []string{"id\x01x", strings.Repeat("a", 33), "caf\xc3\xa9"})
+			// the edges of "printable": 0x1f and 0x7f are control characters, 0x20 and 0x7e are not;
+			// 32 bytes are the longest identifier a broker must accept
+			cid = pick(r, []string{"id\x01x", strings.Repeat("a", 33), "caf\xc3\xa9", "id\x7fx", "\x7f", "id\x1fx", "i~ d", strings.Repeat("b", 32)})
 		case 8:
 			auth = 0
 		}
@@ -250,7 +252,7 @@ func (g *brokerGen) badConnect() {
 	}
 	g.emit("first %d connect %s %d %d %d %s %d %d %s ~ ~ 30 %d", id, hexStr(pn), ver, rsv, clean, will, wq, wr, hexStr(cid), auth)
 	// whether it was accepted is not tracked precisely: only the valid 3.1 pair is
-	if !(pn == "MQIsdp" && ver == 3 && rsv == 0 && will == "~" && wq == 0 && wr == 0 && auth == 1 && cid != "" && len(cid) < 33 && !strings.ContainsAny(cid, "\x01\xc3")) {
+	if !(pn == "MQIsdp" && ver == 3 && rsv == 0 && will == "~" && wq == 0 && wr == 0 && auth == 1 && cid != "" && len(cid) < 33 && !strings.ContainsAny(cid, "\x01\xc3\x7f\x1f")) {
 		if n := len(g.live); n > 0 && g.live[n-1].id == id {
 			g.live = g.live[:n-1]
 		}
